@@ -109,7 +109,7 @@ func countCase(st *verifkit.Stats, spec *gen.Type, in *gen.Input) {
 
 // ---------------------------------------------------------------- JSON family of routes
 
-func jsonRoutes(fatal failf, st *verifkit.Stats, spec *gen.Type, in *gen.Input) {
+func jsonRoutes(fatal failf, st *verifkit.Stats, spec *gen.Type, in *gen.Input, recase int) {
 	doc := in.Docs["json"]
 	docs := map[string]map[string]any{"json": doc}
 	text := gen.RenderJSON(doc)
@@ -126,9 +126,28 @@ func jsonRoutes(fatal failf, st *verifkit.Stats, spec *gen.Type, in *gen.Input) 
 	}))
 
 	// 3. configuration loader (lower-cases keys, canonical-key code path)
-	judge(fatal, st, spec, in, "conf", docs, true, run(spec, func(p any) error {
-		return conf.LoadFromJsonBytes([]byte(text), p)
-	}))
+	confText := text
+	if recase > 0 {
+		n := 0
+		confText = gen.RenderJSON(gen.RecaseDoc(spec, doc, func(k string) string {
+			n++
+			switch (recase + n) % 3 {
+			case 0:
+				return strings.ToUpper(k)
+			case 1:
+				return strings.ToLower(k)
+			}
+			return k
+		}))
+	}
+	// the loader matches keys case-insensitively: the oracle reads the folded document
+	if folded, ok := gen.FoldDoc(spec, doc); ok {
+		judge(fatal, st, spec, in, "conf", map[string]map[string]any{"json": folded}, true, run(spec, func(p any) error {
+			return conf.LoadFromJsonBytes([]byte(confText), p)
+		}))
+	} else {
+		st.Class("conf:ambiguous-keys")
+	}
 
 	// 4. YAML body: the JSON text is YAML; the oracle reads what the converter delivers
 	if conv, err := encoding.YamlToJson([]byte(text)); err == nil {
@@ -180,7 +199,7 @@ func TestVerifC08Json(t *testing.T) {
 		for i := 0; i < n; i++ {
 			in := gen.GenInput(t, spec, drawMode(t))
 			countCase(st, spec, in)
-			jsonRoutes(t.Fatalf, st, spec, in)
+			jsonRoutes(t.Fatalf, st, spec, in, rapid.IntRange(0, 3).Draw(t, "recase"))
 		}
 	})
 }
